@@ -52,7 +52,7 @@ func init() {
 				at := g.Range(0, len(script))
 				script = append(script[:at:at], append([]Step{{K: "P", V: 7}}, script[at:]...)...)
 			}
-			sc.Sources = []SrcSpec{{Mode: mode, Ctor: ctor, Script: script}}
+			sc.Sources = []SrcSpec{{Mode: mode, Ctor: ctor, CtorAPI: g.PickInt(0, 0, 1, 2), Script: script}}
 			n := g.PickInt(0, 1, 1, 1, 2, 3, 4, 5)
 			sc.Sub = "chain"
 			if n == 0 {
@@ -91,7 +91,7 @@ func init() {
 				sc.Stages = append(sc.Stages, StageSpec{Op: "Serialize"})
 			}
 			script := genIllegalScript(g, 10)
-			sc.Sources = []SrcSpec{{Mode: "async", Ctor: c, Producers: g.Range(2, 4), Script: script}}
+			sc.Sources = []SrcSpec{{Mode: "async", Ctor: c, CtorAPI: g.PickInt(0, 0, 1, 2), Producers: g.Range(2, 4), Script: script}}
 			n := g.PickInt(0, 0, 1, 2, 3)
 			if n == 0 && ctor != "serialize" {
 				sc.Sub = ctor + "-bare"
